@@ -27,7 +27,7 @@ RULE = (
     "4097, 4600, 8 KiB, 12 000, 16 KiB, 64 KiB, 256 KiB, 1 MiB, 8 MiB−64 KiB} × VGI_RPC_SHM_MIN_BATCH_BYTES ∈ {0, 1024} "
     "(fixed per shard process, set before vgi_rpc.shm is imported) × server segment {static ShmPipeTransport, dynamic "
     "attach from request metadata} × client policy {release each, hold k∈1..3 then release, never release until the "
-    "end}.  Non-trivial = ≥3 calls and ≥1 batch actually went through shm (allocator write or free counted on the "
+    "end}; 1/16 of exchange calls send a first input with a renamed column (must be rejected).  Non-trivial = ≥3 calls and ≥1 batch actually went through shm (allocator write or free counted on the "
     "segment).  Distinct by SHA-1 of the JSON case."
 )
 ASSUMPTIONS = [
